@@ -518,6 +518,12 @@ func TestC39(t *testing.T) {
 			if debug {
 				fmt.Printf("C39DBG w%d b%d %-40s served=%v err=%.200s\n", wi, bi, "VALID-BASE "+b.api, res.Served, res.Err)
 			}
+			if !res.Served && (strings.Contains(res.Err, "context deadline exceeded") || strings.Contains(res.Err, "deadline expired")) {
+				// the relay to the stub node ran into a wall-clock timeout (loaded machine): no verdict from a timer
+				run.Inconclusive(fmt.Sprintf("world %d base %d: the valid relay timed out on the wall clock (%.160s)", wi, bi, res.Err))
+				dirty = true
+				break
+			}
 			if !res.Served {
 				// is the burst the reason? replay only the accepted valid requests, then this one, in a fresh identical world
 				ctrl := controlAccepts(run.Seed, wi, w, nil, b.Req)
